@@ -1,13 +1,16 @@
 #include <occa/internal/core/device.hpp>
 #include <occa/internal/core/streamTag.hpp>
+#include <occa/internal/utils/verif.hpp>
 
 namespace occa {
   modeStreamTag_t::modeStreamTag_t(modeDevice_t *modeDevice_) :
     modeDevice(modeDevice_) {
+    OCCA_VERIF_CREATED(kStreamTag);
     modeDevice->addStreamTagRef(this);
   }
 
   modeStreamTag_t::~modeStreamTag_t() {
+    OCCA_VERIF_DESTROYED(kStreamTag);
     // NULL all wrappers
     while (streamTagRing.head) {
       streamTag *mem = (streamTag*) streamTagRing.head;
